@@ -307,3 +307,14 @@ Definition kinds_ok (tab : vtab) : bool :=
   forallb (fun sr => well_kinded (snd sr)) (vt_setreq tab).
 Theorem tables_well_kinded v : kinds_ok (tab_of v) = true.
 Proof. destruct v; vm_compute; reflexivity. Qed.
+
+(* The validator FUNCTIONS (validate_gps, validate_hex, validate_v_rgb, validate_v_rgbw) are
+   modelled by hand in Model/Rules.v (eval_fun).  Their AST fingerprints are regenerated on
+   every run; this obligation pins the fingerprints the hand model was written against, so a
+   changed function body breaks it (and triggers the enlarged search), even when the rewrite
+   is harmless. *)
+Require Import String.
+Theorem validator_functions_unchanged :
+  fn_hashes = [(s2p "FGps", s2p "9ecc978b1525c8ed"); (s2p "FHex", s2p "9e4105613a820f9c");
+               (s2p "FRgb", s2p "1d36f795cba6d63d"); (s2p "FRgbw", s2p "f19d72d3d74541eb")].
+Proof. vm_compute. reflexivity. Qed.
